@@ -21,6 +21,17 @@ var solvers = []solverSpec{
 		return []string{"cvc5", "--lang", "smt2", "--tlimit=" + itoa(t*1000), "--full-saturate-quant"}
 	}},
 	{"z3-4.8.12", func(t int) []string { return []string{"z3", "-in", "-T:" + itoa(t)} }},
+	// the same solver under other random seeds: quantifier instantiation is a heuristic search, and a proof that one
+	// seed finds in 0.2 s another may not find in 10 s; the portfolio makes a pass independent of one seed's luck
+	{"z3-new-5.1.0/seed3", func(t int) []string {
+		return []string{"z3-new", "-in", "-T:" + itoa(t), "smt.random_seed=3", "sat.random_seed=3"}
+	}},
+	{"z3-new-5.1.0/seed7", func(t int) []string {
+		return []string{"z3-new", "-in", "-T:" + itoa(t), "smt.random_seed=7", "sat.random_seed=7"}
+	}},
+	{"z3-new-5.1.0/seed11", func(t int) []string {
+		return []string{"z3-new", "-in", "-T:" + itoa(t), "smt.random_seed=11", "sat.random_seed=11"}
+	}},
 }
 
 func itoa(n int) string {
@@ -97,7 +108,7 @@ func solve(query string, timeoutSec int, all bool) []solveResult {
 	started := 1
 	finished := 0
 	var out []solveResult
-	timer := time.After(1 * time.Second)
+	timer := time.After(700 * time.Millisecond)
 	if all {
 		timer = time.After(0)
 	}
